@@ -248,6 +248,19 @@ def check_allocators(chk, rule='R06.7', only_shared_clause=False):
                                         (aa[0] == cover[0] and aa[1] == 65536) or (aa[1] == cover[0] and aa[0] == 65536))
             chk.expect(total_ok, rule, inst + ':allocation', 'calloc(%r, %r) does not allocate the %r bytes recorded as the memory size'
                        % (a[0], a[1], size), site + ':alloc')
+            # the byte count must not wrap: 65536 pages (4 GiB) is the largest memory the format allows and the usual declared maximum
+            # of a shared memory, whose storage is reserved up front
+            if total_ok:
+                try:
+                    env = {ini: 65536, mx: 65536}
+                    total = pe.sym_eval(a[0], env) * pe.sym_eval(a[1], env)
+                except KeyError:
+                    total = None
+                chk.expect(total == 1 << 32, rule, inst + ':allocation-no-wrap',
+                           'for a page count of 65536 (4 GiB: the largest memory of the format%s) calloc(%r, %r) is asked for %s bytes: the byte count '
+                           'is computed in 32 bits and wraps to 0 - the memory has no storage and every access is out of bounds'
+                           % (', the usual maximum of a shared memory, which is reserved up front' if shared else '', a[0], a[1],
+                              'an unknown number of' if total is None else total), site + ':alloc-wrap')
     if only_shared_clause:
         return
     # tables
